@@ -361,5 +361,285 @@ theorem featureHeader_ok : FinderOK featureHeader := by
       rw [hd] at hm
       simp [searchFrom, hm]
 
+
+/-! ## 4. rename maps: writing undoes reading -/
+
+section
+variable {κ : Type} {α : Type} {β : Type}
+
+theorem foldl_congr_mem (f g : β → α → β) (l : List α) (a : β) (h : ∀ b, ∀ x ∈ l, f b x = g b x) :
+    l.foldl f a = l.foldl g a := by
+  induction l generalizing a with
+  | nil => rfl
+  | cons x r ih =>
+    simp only [List.foldl_cons]
+    rw [h a x (by simp)]
+    exact ih _ (fun b y hy => h b y (by simp [hy]))
+
+theorem foldl_const (l : List α) (a : β) : l.foldl (fun r _ => r) a = a := by
+  induction l with
+  | nil => rfl
+  | cons x r ih => simpa using ih
+
+theorem nodup_map_of_inj_on (f : α → β) (l : List α) (hn : l.Nodup)
+    (hi : ∀ x ∈ l, ∀ y ∈ l, f x = f y → x = y) : (l.map f).Nodup := by
+  induction l with
+  | nil => simp
+  | cons x r ih =>
+    simp only [List.nodup_cons] at hn
+    simp only [List.map_cons, List.nodup_cons, List.mem_map, not_exists, not_and]
+    refine ⟨fun y hy e => ?_, ih hn.2 (fun a ha b hb => hi a (by simp [ha]) b (by simp [hb]))⟩
+    have := hi y (by simp [hy]) x (by simp) e
+    subst this
+    exact hn.1 hy
+
+theorem fst_eq_of_snd_nodup [DecidableEq κ] (l : List (κ × α)) (hn : (l.map Prod.snd).Nodup) (a c : κ) (x : α)
+    (ha : (a, x) ∈ l) (hc : (c, x) ∈ l) : a = c := by
+  induction l with
+  | nil => simp at ha
+  | cons p r ih =>
+    simp only [List.map_cons, List.nodup_cons, List.mem_map, not_exists, not_and] at hn
+    simp only [List.mem_cons] at ha hc
+    rcases ha with ha | ha <;> rcases hc with hc | hc
+    · rw [← ha] at hc; exact (Prod.mk.inj hc).1.symm
+    · subst ha; exact absurd rfl (hn.1 (c, x) hc)
+    · subst hc; exact absurd rfl (hn.1 (a, x) ha)
+    · exact ih hn.2 ha hc
+end
+
+/-- a dict built by assigning pairwise distinct fresh keys = the list of those entries -/
+theorem foldl_set_map {ι κ α : Type} [DecidableEq κ] (kf : ι → κ) (vf : ι → α) (l : List ι) (acc : List (κ × α))
+    (hn : (l.map kf).Nodup) (hd : ∀ x ∈ l, kf x ∉ AL.keys acc) :
+    l.foldl (fun r x => AL.set r (kf x) (vf x)) acc = acc ++ l.map (fun x => (kf x, vf x)) := by
+  have := foldl_set_fresh (l.map (fun x => (kf x, vf x))) acc
+    (by simpa [AL.keys, List.map_map, Function.comp_def] using hn)
+    (by intro k hk; simp only [AL.keys, List.map_map, List.mem_map, Function.comp_def] at hk
+        obtain ⟨x, hx, rfl⟩ := hk; exact hd x hx)
+  simpa [List.foldl_map] using this
+
+theorem flip_eq (m : Maps) (hn : (news m).Nodup) :
+    flip m = (m.side1 ++ m.side2).map (fun p => (p.2, p.1)) := by
+  unfold flip
+  have := foldl_set_map (fun p : Name × Name => p.2) (fun p => p.1) (m.side1 ++ m.side2) [] hn (by simp [AL.keys])
+  simpa using this
+
+theorem keys_flip (m : Maps) (hn : (news m).Nodup) : AL.keys (flip m) = news m := by
+  rw [flip_eq m hn]; simp [AL.keys, news, List.map_map, Function.comp_def]
+
+theorem get?_flip_new (m : Maps) (hn : (news m).Nodup) (p : Name × Name) (hp : p ∈ m.side1 ++ m.side2) :
+    AL.get? (flip m) p.2 = some p.1 := by
+  apply AL.get?_of_mem_nodup (by rw [keys_flip m hn]; exact hn)
+  rw [flip_eq m hn]
+  exact List.mem_map.mpr ⟨p, hp, rfl⟩
+
+theorem get?_flip_other (m : Maps) (hn : (news m).Nodup) (n : Name) (h : n ∉ news m) :
+    AL.get? (flip m) n = none :=
+  AL.get?_eq_none_of_not_mem (by rw [keys_flip m hn]; exact h)
+
+theorem upGroups_eq (m : Maps) (g : Groups) (k : Kerning) (ok : MapsOK m g k) :
+    upGroups m g = g ++ (m.side1 ++ m.side2).map (fun p => (p.2, (AL.get? g p.1).getD [])) := by
+  unfold upGroups
+  exact foldl_set_map (fun p : Name × Name => p.2) (fun p => (AL.get? g p.1).getD []) _ g ok.newsNodup
+    (fun p hp => ok.newsFresh p.2 (List.mem_map.mpr ⟨p, hp, rfl⟩))
+
+theorem get?_of_mem_keys {κ α : Type} [DecidableEq κ] (l : List (κ × α)) (k : κ) (h : k ∈ AL.keys l) :
+    ∃ v, AL.get? l k = some v := by
+  induction l with
+  | nil => simp [AL.keys] at h
+  | cons p r ih =>
+    obtain ⟨k', v'⟩ := p
+    by_cases h1 : k' = k
+    · exact ⟨v', by simp [h1]⟩
+    · simp only [AL.keys, List.map_cons, List.mem_cons] at h
+      rcases h with h | h
+      · exact absurd h.symm h1
+      · obtain ⟨v, hv⟩ := ih (by simpa [AL.keys] using h)
+        exact ⟨v, by simp [h1, hv]⟩
+
+/-- GROUPS: writing with the maps undoes what reading with them did -/
+theorem downGroups_upGroups (m : Maps) (g : Groups) (k : Kerning) (ok : MapsOK m g k) :
+    downGroups (flip m) (upGroups m g) = g := by
+  rw [upGroups_eq m g k ok]
+  unfold downGroups
+  simp only [List.foldl_append]
+  have hold : ∀ p ∈ g, p.1 ∉ news m :=
+    fun p hp hmem => ok.newsFresh p.1 hmem (List.mem_map.mpr ⟨p, hp, rfl⟩)
+  -- first pass: the original groups are copied, the renamed copies skipped
+  have h1 : g.foldl (downKeep (flip m)) [] = g := by
+    rw [foldl_congr_mem _ (fun r p => AL.set r p.1 p.2) g []]
+    · simpa using foldl_set_fresh g [] ok.gNodup (by simp [AL.keys])
+    · intro b p hp
+      simp [downKeep, AL.contains, get?_flip_other m ok.newsNodup p.1 (hold p hp)]
+  have h2 : ∀ acc, ((m.side1 ++ m.side2).map (fun p => (p.2, (AL.get? g p.1).getD []))).foldl
+      (downKeep (flip m)) acc = acc := by
+    intro acc
+    rw [foldl_congr_mem _ (fun r _ => r)]
+    · exact foldl_const _ _
+    · intro b p hp
+      obtain ⟨q, hq, rfl⟩ := List.mem_map.mp hp
+      simp [downKeep, AL.contains, get?_flip_new m ok.newsNodup q hq]
+  rw [h1, h2]
+  -- second pass: nothing for the originals; a renamed copy is written back under the old name,
+  -- where the same list already is
+  have h3 : g.foldl (downMove (flip m)) g = g := by
+    rw [foldl_congr_mem _ (fun r _ => r)]
+    · exact foldl_const _ _
+    · intro b p hp
+      simp [downMove, get?_flip_other m ok.newsNodup p.1 (hold p hp)]
+  rw [h3]
+  generalize hl : m.side1 ++ m.side2 = l
+  have hall : ∀ p ∈ l, p ∈ m.side1 ++ m.side2 := by rw [hl]; exact fun p hp => hp
+  clear hl h2
+  induction l with
+  | nil => rfl
+  | cons q r ih =>
+    simp only [List.map_cons, List.foldl_cons]
+    have hq := hall q (by simp)
+    obtain ⟨v, hv⟩ := get?_of_mem_keys g q.1 (ok.oldsIn q hq)
+    have : downMove (flip m) g (q.2, (AL.get? g q.1).getD []) = g := by
+      simp only [downMove, get?_flip_new m ok.newsNodup q hq, hv, Option.getD_some]
+      exact set_same g q.1 v hv
+    rw [this]
+    exact ih (fun p hp => hall p (by simp [hp]))
+
+/-- a name that is not one of the new names is renamed injectively by one side of the maps -/
+theorem rn_side_inj (m : Maps) (side : List (Name × Name)) (hs : ∀ p ∈ side, p ∈ m.side1 ++ m.side2)
+    (hsn : (side.map Prod.snd).Nodup)
+    (a c : Name) (ha : a ∉ news m) (hc : c ∉ news m) (h : rn side a = rn side c) : a = c := by
+  unfold rn at h
+  cases hga : AL.get? side a with
+  | none =>
+    cases hgc : AL.get? side c with
+    | none => simpa [hga, hgc] using h
+    | some y =>
+      simp [hga, hgc] at h
+      exact absurd (List.mem_map.mpr ⟨(c, y), hs _ (AL.mem_of_get? hgc), rfl⟩) (by rw [← h]; exact ha)
+  | some x =>
+    cases hgc : AL.get? side c with
+    | none =>
+      simp [hga, hgc] at h
+      exact absurd (List.mem_map.mpr ⟨(a, x), hs _ (AL.mem_of_get? hga), rfl⟩) (by rw [h]; exact hc)
+    | some y =>
+      simp [hga, hgc] at h
+      subst h
+      exact fst_eq_of_snd_nodup side hsn a c x (AL.mem_of_get? hga) (AL.mem_of_get? hgc)
+
+/-- … and the flat map of the writer takes it back -/
+theorem rn_flip_rn (m : Maps) (hn : (news m).Nodup) (side : List (Name × Name))
+    (hs : ∀ p ∈ side, p ∈ m.side1 ++ m.side2) (a : Name) (ha : a ∉ news m) :
+    rn (flip m) (rn side a) = a := by
+  unfold rn
+  cases hga : AL.get? side a with
+  | none => simp [get?_flip_other m hn a ha]
+  | some x =>
+    have := get?_flip_new m hn (a, x) (hs _ (AL.mem_of_get? hga))
+    simp at this
+    simp [this]
+
+theorem nodup_sides (m : Maps) (hn : (news m).Nodup) :
+    (m.side1.map Prod.snd).Nodup ∧ (m.side2.map Prod.snd).Nodup := by
+  unfold news at hn
+  rw [List.map_append, List.nodup_append] at hn
+  exact ⟨hn.1, hn.2.1⟩
+
+/-- KERNING: writing with the maps undoes what reading with them did -/
+theorem downKerning_upKerning (m : Maps) (g : Groups) (k : Kerning) (ok : MapsOK m g k) :
+    downKerning (flip m) (upKerning m k) = k := by
+  obtain ⟨hn1, hn2⟩ := nodup_sides m ok.newsNodup
+  have hs1 : ∀ p ∈ m.side1, p ∈ m.side1 ++ m.side2 := fun p hp => List.mem_append_left _ hp
+  have hs2 : ∀ p ∈ m.side2, p ∈ m.side1 ++ m.side2 := fun p hp => List.mem_append_right _ hp
+  let f : Name × Name → Name × Name := fun p => (rn m.side1 p.1, rn m.side2 p.2)
+  let gf : Name × Name → Name × Name := fun p => (rn (flip m) p.1, rn (flip m) p.2)
+  have hfinj : ∀ x ∈ AL.keys k, ∀ y ∈ AL.keys k, f x = f y → x = y := by
+    intro x hx y hy e
+    obtain ⟨hx1, hx2⟩ := ok.kernFree x hx
+    obtain ⟨hy1, hy2⟩ := ok.kernFree y hy
+    have e1 := rn_side_inj m m.side1 hs1 hn1 x.1 y.1 hx1 hy1 (Prod.mk.inj e).1
+    have e2 := rn_side_inj m m.side2 hs2 hn2 x.2 y.2 hx2 hy2 (Prod.mk.inj e).2
+    exact Prod.ext e1 e2
+  have hgf : ∀ x ∈ AL.keys k, gf (f x) = x := by
+    intro x hx
+    obtain ⟨hx1, hx2⟩ := ok.kernFree x hx
+    exact Prod.ext (rn_flip_rn m ok.newsNodup m.side1 hs1 x.1 hx1) (rn_flip_rn m ok.newsNodup m.side2 hs2 x.2 hx2)
+  have hup : upKerning m k = k.map (fun p => (f p.1, p.2)) := by
+    unfold upKerning
+    have := foldl_set_map (fun p : (Name × Name) × Int => f p.1) (fun p => p.2) k []
+      (by have := nodup_map_of_inj_on f (AL.keys k) ok.kNodup hfinj
+          simpa [AL.keys, List.map_map, Function.comp_def] using this) (by simp [AL.keys])
+    simpa using this
+  rw [hup]
+  unfold downKerning
+  have hdown := foldl_set_map (fun p : (Name × Name) × Int => gf p.1) (fun p => p.2) (k.map (fun p => (f p.1, p.2))) []
+    (by
+      have : (k.map (fun p => (f p.1, p.2))).map (fun p => gf p.1) = AL.keys k := by
+        simp only [List.map_map, Function.comp_def, AL.keys]
+        apply List.map_congr_left
+        intro p hp
+        exact hgf p.1 (List.mem_map.mpr ⟨p, hp, rfl⟩)
+      rw [this]; exact ok.kNodup) (by simp [AL.keys])
+  simp only [List.nil_append] at hdown
+  rw [show (fun (r : Kerning) (p : (Name × Name) × Int) => AL.set r (rn (flip m) p.1.1, rn (flip m) p.1.2) p.2)
+      = (fun r p => AL.set r (gf p.1) p.2) from rfl, hdown]
+  simp only [List.map_map, Function.comp_def]
+  conv => rhs; rw [← List.map_id k]
+  apply List.map_congr_left
+  intro p hp
+  simp only [id]
+  exact Prod.ext (hgf p.1 (List.mem_map.mpr ⟨p, hp, rfl⟩)) rfl
+
+theorem get?_append {κ α : Type} [DecidableEq κ] (a b : List (κ × α)) (k : κ) :
+    AL.get? (a ++ b) k = (AL.get? a k <|> AL.get? b k) := by
+  induction a with
+  | nil => simp
+  | cons p r ih =>
+    obtain ⟨k', v'⟩ := p
+    by_cases h : k' = k <;> simp [h, ih]
+
+/-- reading keeps every pair, under the renamed names -/
+theorem upKerning_pair (m : Maps) (g : Groups) (k : Kerning) (ok : MapsOK m g k) (a b : Name) (v : Int)
+    (h : AL.get? k (a, b) = some v) :
+    AL.get? (upKerning m k) (rn m.side1 a, rn m.side2 b) = some v := by
+  obtain ⟨hn1, hn2⟩ := nodup_sides m ok.newsNodup
+  have hs1 : ∀ p ∈ m.side1, p ∈ m.side1 ++ m.side2 := fun p hp => List.mem_append_left _ hp
+  have hs2 : ∀ p ∈ m.side2, p ∈ m.side1 ++ m.side2 := fun p hp => List.mem_append_right _ hp
+  let f : Name × Name → Name × Name := fun p => (rn m.side1 p.1, rn m.side2 p.2)
+  have hfinj : ∀ x ∈ AL.keys k, ∀ y ∈ AL.keys k, f x = f y → x = y := by
+    intro x hx y hy e
+    obtain ⟨hx1, hx2⟩ := ok.kernFree x hx
+    obtain ⟨hy1, hy2⟩ := ok.kernFree y hy
+    exact Prod.ext (rn_side_inj m m.side1 hs1 hn1 x.1 y.1 hx1 hy1 (Prod.mk.inj e).1)
+      (rn_side_inj m m.side2 hs2 hn2 x.2 y.2 hx2 hy2 (Prod.mk.inj e).2)
+  have hnd : ((AL.keys k).map f).Nodup := nodup_map_of_inj_on f (AL.keys k) ok.kNodup hfinj
+  have hup : upKerning m k = k.map (fun p => (f p.1, p.2)) := by
+    unfold upKerning
+    have := foldl_set_map (fun p : (Name × Name) × Int => f p.1) (fun p => p.2) k []
+      (by simpa [AL.keys, List.map_map, Function.comp_def] using hnd) (by simp [AL.keys])
+    simpa using this
+  rw [hup]
+  apply AL.get?_of_mem_nodup
+  · simpa [AL.keys, List.map_map, Function.comp_def] using hnd
+  · exact List.mem_map.mpr ⟨((a, b), v), AL.mem_of_get? h, rfl⟩
+
+/-- … every group keeps its members, and the group a renamed name now refers to has the members
+the old one had -/
+theorem upGroups_old (m : Maps) (g : Groups) (k : Kerning) (ok : MapsOK m g k) (n : Name) (h : n ∈ AL.keys g) :
+    AL.get? (upGroups m g) n = AL.get? g n := by
+  rw [upGroups_eq m g k ok, get?_append]
+  obtain ⟨v, hv⟩ := get?_of_mem_keys g n h
+  simp [hv]
+
+theorem upGroups_new (m : Maps) (g : Groups) (k : Kerning) (ok : MapsOK m g k) (p : Name × Name)
+    (hp : p ∈ m.side1 ++ m.side2) :
+    AL.get? (upGroups m g) p.2 = AL.get? g p.1 := by
+  rw [upGroups_eq m g k ok, get?_append]
+  have hnew : p.2 ∈ news m := List.mem_map.mpr ⟨p, hp, rfl⟩
+  rw [AL.get?_eq_none_of_not_mem (ok.newsFresh p.2 hnew)]
+  obtain ⟨v, hv⟩ := get?_of_mem_keys g p.1 (ok.oldsIn p hp)
+  have : AL.get? ((m.side1 ++ m.side2).map (fun p => (p.2, (AL.get? g p.1).getD []))) p.2 = some ((AL.get? g p.1).getD []) := by
+    apply AL.get?_of_mem_nodup
+    · simpa [AL.keys, List.map_map, Function.comp_def, news] using ok.newsNodup
+    · exact List.mem_map.mpr ⟨p, hp, rfl⟩
+  rw [this, hv]; simp
+
 end Conv
 end DefconModel
